@@ -429,6 +429,10 @@ func (d *memDCS) Get(path string, dest any) error {
 	resp := ""
 	if rerr != nil {
 		resp = errGal(rerr)
+	} else if strings.HasPrefix(strings.Trim(path, "/"), pathHealthPrefix+"/") {
+		var ns nodestate.NodeState
+		_ = json.Unmarshal(b, &ns)
+		resp = "(RNodeState " + nsGal(&ns) + ")"
 	} else {
 		resp = "(RVal " + dvalGal(path, b) + ")"
 	}
@@ -700,7 +704,8 @@ func cfgGal(c *config.Config) string {
 		"; c_offline_enable_lag := " + vk.Z(int64(c.OfflineModeEnableLag/time.Second)) + "; c_offline_disable_lag := " + vk.Z(int64(c.OfflineModeDisableLag/time.Second)) +
 		"; c_offline_enable_interval := " + d(c.OfflineModeEnableInterval) + "; c_offline_max_pct := " + vk.Z(int64(c.OfflineModeMaxOfflinePct)) +
 		"; c_repair_aggressive := " + vk.B(c.ReplicationRepairAggressiveMode) + "; c_repair_max_attempts := " + vk.Z(int64(c.ReplicationRepairMaxAttempts)) +
-		"; c_repair_cooldown := " + d(c.ReplicationRepairCooldown) + "; c_stream_from_reasonable_lag := " + vk.Z(int64(c.StreamFromReasonableLag/time.Second)) + " |}"
+		"; c_repair_cooldown := " + d(c.ReplicationRepairCooldown) + "; c_stream_from_reasonable_lag := " + vk.Z(int64(c.StreamFromReasonableLag/time.Second)) +
+		"; c_disable_semisync_on_maint := " + vk.B(c.DisableSemiSyncReplicationOnMaintenance) + " |}"
 }
 
 func (v *vApp) close() {
